@@ -2,7 +2,8 @@
 import ast
 import copy
 import itertools
-import os
+import shutil
+import time
 
 from ..coqeval import eval_shards, parse_eval_results
 from ..util import workdir
@@ -67,7 +68,11 @@ def evaluate(ctx, cases, label, shard=150):
     """run the CLI on all cases, judge them in Coq; returns list of (case, obs, verdict) with
     verdict = dict(valid, l1, routing, partition, hist, matching, blamed) or None if not judged"""
     root = workdir(ctx, "C14-" + label)
+    t0 = time.time()
     obs = sc.run_cases(ctx, cases, root)
+    shutil.rmtree(root, ignore_errors=True)
+    ctx.extra["cli_seconds"] = round(ctx.extra.get("cli_seconds", 0) + time.time() - t0, 1)
+    t0 = time.time()
     terms, idx = [], []
     for i, (case, ob) in enumerate(zip(cases, obs)):
         if ob["rc"] != 0 and ob["error"].startswith("other:"):
@@ -99,6 +104,7 @@ def evaluate(ctx, cases, label, shard=150):
                                           partition=bool(head[3]), hist=bool(head[4]), matching=matching,
                                           blamed=blamed)
                 pos += 1
+    ctx.extra["coq_seconds"] = round(ctx.extra.get("coq_seconds", 0) + time.time() - t0, 1)
     return list(zip(cases, obs, verdicts))
 
 
